@@ -114,3 +114,154 @@ example : (coverHungarian [[0],[0,1]]).toOption = some ([true,true],[false,false
 example : (coverHungarian [[0,1],[0],[0]]).toOption = some ([true,false,false],[true,false]) := by decide +kernel
 
 end RenoVerif.Cover
+
+namespace RenoVerif.Cover
+
+/-! ### the König closure model itself: whenever `new_konig` returns (none of its assertions
+    fires), the returned tables cover every edge — for every graph and every matching table. -/
+
+def AllMarked (g : Graph) (vU vV : List Bool) : Prop :=
+  ∀ u, vU.getD u false = true → ∀ v ∈ g.getD u [], vV.getD v false = true
+
+def Grows (a b : List Bool) : Prop := a.length = b.length ∧ ∀ i, a.getD i false = true → b.getD i false = true
+
+theorem grows_refl (a : List Bool) : Grows a a := ⟨rfl, fun _ h => h⟩
+theorem grows_trans {a b c : List Bool} (h1 : Grows a b) (h2 : Grows b c) : Grows a c :=
+  ⟨h1.1.trans h2.1, fun i h => h2.2 i (h1.2 i h)⟩
+
+theorem getD_set_true (l : List Bool) (i j : Nat) (hj : j < l.length) :
+    (l.set j true).getD i false = (if i = j then true else l.getD i false) := by
+  simp only [List.getD_eq_getElem?_getD, List.getElem?_set]
+  by_cases h : j = i
+  · subst h; simp [hj]
+  · simp [h, Ne.symm h]
+
+theorem grows_set (l : List Bool) (j : Nat) (hj : j < l.length) : Grows l (l.set j true) := by
+  refine ⟨by simp, fun i h => ?_⟩
+  rw [getD_set_true l i j hj]; split <;> simp_all
+
+/-- the inner loop marks every neighbour in its list, and only adds marks -/
+theorem scan_spec (matchV : List (Option Nat)) : ∀ (vs wait : List Nat) (vV : List Bool) (wait' : List Nat) (vV' : List Bool),
+    (∀ v ∈ vs, v < vV.length) → scan matchV vs wait vV = .ok (wait', vV') →
+    Grows vV vV' ∧ ∀ v ∈ vs, vV'.getD v false = true
+  | [], wait, vV, wait', vV', _, h => by
+    simp only [scan, Except.ok.injEq, Prod.mk.injEq] at h
+    obtain ⟨_, rfl⟩ := h
+    exact ⟨grows_refl _, by simp⟩
+  | v :: vs, wait, vV, wait', vV', hb, h => by
+    have hv : v < vV.length := hb v List.mem_cons_self
+    have hvs : ∀ x ∈ vs, x < vV.length := fun x hx => hb x (List.mem_cons_of_mem _ hx)
+    simp only [scan] at h
+    split at h
+    · rename_i hmark
+      obtain ⟨g1, g2⟩ := scan_spec matchV vs wait vV wait' vV' hvs h
+      refine ⟨g1, fun x hx => ?_⟩
+      rcases List.mem_cons.mp hx with rfl | hx
+      · exact g1.2 _ hmark
+      · exact g2 x hx
+    · split at h
+      · cases h
+      · split at h
+        · cases h
+        · have hlen : (vV.set v true).length = vV.length := by simp
+          obtain ⟨g1, g2⟩ := scan_spec matchV vs _ (vV.set v true) wait' vV' (by simpa [hlen] using hvs) h
+          refine ⟨grows_trans (grows_set vV v hv) g1, fun x hx => ?_⟩
+          rcases List.mem_cons.mp hx with rfl | hx
+          · apply g1.2; rw [getD_set_true vV _ _ hv]; simp
+          · exact g2 x hx
+
+theorem konigLoop_spec (g : Graph) (matchV : List (Option Nat)) (nV : Nat)
+    (hg : ∀ adj ∈ g, ∀ v ∈ adj, v < nV) :
+    ∀ (fuel : Nat) (wait : List Nat) (vU vV vU' vV' : List Bool), vV.length = nV →
+    (∀ u ∈ wait, u < vU.length) → (∀ o ∈ matchV, ∀ u, o = some u → u < vU.length) →
+    AllMarked g vU vV → konigLoop g matchV fuel wait vU vV = .ok (vU', vV') → AllMarked g vU' vV'
+  | 0, _, _, _, _, _, _, _, _, _, h => by simp [konigLoop] at h
+  | fuel+1, [], vU, vV, vU', vV', _, _, _, hinv, h => by
+    simp only [konigLoop, Except.ok.injEq, Prod.mk.injEq] at h
+    obtain ⟨rfl, rfl⟩ := h; exact hinv
+  | fuel+1, u :: wait, vU, vV, vU', vV', hlen, hw, hm, hinv, h => by
+    simp only [konigLoop] at h
+    split at h
+    · cases h
+    · rename_i wait1 vV1 hscan
+      have hadj : ∀ v ∈ g.getD u [], v < vV.length := by
+        intro v hv
+        rw [hlen]
+        rw [List.getD_eq_getElem?_getD] at hv
+        cases hgu : g[u]? with
+        | none => rw [hgu] at hv; simp at hv
+        | some adj => rw [hgu] at hv; exact hg adj (List.mem_of_getElem? hgu) v hv
+      obtain ⟨g1, g2⟩ := scan_spec matchV _ wait vV wait1 vV1 hadj hscan
+      have hu : u < vU.length := hw u List.mem_cons_self
+      apply konigLoop_spec g matchV nV hg fuel wait1 (vU.set u true) vV1 vU' vV' (by rw [← g1.1]; exact hlen) ?_ ?_ ?_ h
+      · -- every element of the new worklist is in range
+        intro x hx
+        simp only [List.length_set]
+        -- new worklist entries come from the old worklist or from matchV
+        have : ∀ (vs wait0 : List Nat) (vV0 : List Bool) (w1 : List Nat) (vV2 : List Bool),
+            scan matchV vs wait0 vV0 = .ok (w1, vV2) → (∀ y ∈ wait0, y < vU.length) → ∀ y ∈ w1, y < vU.length := by
+          intro vs
+          induction vs with
+          | nil => intro wait0 vV0 w1 vV2 hs hw0 y hy; simp only [scan, Except.ok.injEq, Prod.mk.injEq] at hs; rw [← hs.1] at hy; exact hw0 y hy
+          | cons v vs ih =>
+            intro wait0 vV0 w1 vV2 hs hw0 y hy
+            simp only [scan] at hs
+            split at hs
+            · exact ih _ _ _ _ hs hw0 y hy
+            · split at hs
+              · cases hs
+              · rename_i u' hu'
+                split at hs
+                · cases hs
+                · refine ih _ _ _ _ hs ?_ y hy
+                  intro z hz
+                  rcases List.mem_cons.mp hz with rfl | hz
+                  · have hmem : matchV.getD v none ∈ matchV := by
+                      rw [List.getD_eq_getElem?_getD] at hu' ⊢
+                      cases hq : matchV[v]? with
+                      | none => rw [hq] at hu'; simp at hu'
+                      | some o => simp [List.mem_of_getElem? hq]
+                    exact hm _ hmem _ hu'
+                  · exact hw0 z hz
+        exact this _ _ _ _ _ hscan (fun y hy => hw y (List.mem_cons_of_mem _ hy)) x hx
+      · intro o ho u0 hou; simp only [List.length_set]; exact hm o ho u0 hou
+      · -- invariant for the enlarged visited set
+        intro u0 hu0 v hv
+        rw [getD_set_true vU u0 u hu] at hu0
+        by_cases hEq : u0 = u
+        · subst hEq; exact g2 v hv
+        · simp only [hEq, if_false] at hu0
+          exact g1.2 v (hinv u0 hu0 v hv)
+
+/-- **König closure returns a cover** (for every graph, every matching table, whatever the order in
+    which the worklist is processed here: the set-`pop` order of the code only permutes it) -/
+theorem konig_cover (g : Graph) (nU nV : Nat) (matchV : List (Option Nat)) (cU cV : List Bool)
+    (hg : ∀ adj ∈ g, ∀ v ∈ adj, v < nV) (hgl : g.length ≤ nU)
+    (hm : ∀ o ∈ matchV, ∀ u, o = some u → u < nU)
+    (h : konig g nU nV matchV = .ok (cU, cV)) :
+    ∀ u, u < nU → ∀ v ∈ g.getD u [], cU.getD u true = true ∨ cV.getD v false = true := by
+  unfold konig at h
+  simp only at h
+  split at h
+  · cases h
+  · rename_i vU vV hloop
+    simp only [Except.ok.injEq, Prod.mk.injEq] at h
+    obtain ⟨rfl, rfl⟩ := h
+    have hinv := konigLoop_spec g matchV nV hg _ _ _ _ vU vV (by simp) (by
+        intro u hu; simp only [List.length_replicate]; exact List.mem_range.mp (List.mem_filter.mp hu).1)
+      (by intro o ho u hou; simp only [List.length_replicate]; exact hm o ho u hou)
+      (by
+        intro u hu
+        exfalso
+        rw [List.getD_eq_getElem?_getD, List.getElem?_replicate] at hu
+        split at hu <;> simp at hu) hloop
+    intro u _ v hv
+    by_cases hvis : vU.getD u false = true
+    · right; exact hinv u hvis v hv
+    · left
+      simp only [List.getD_eq_getElem?_getD, List.getElem?_map] at hvis ⊢
+      cases hq : vU[u]? with
+      | none => simp
+      | some b => rw [hq] at hvis; simp at hvis; simp [hvis]
+
+end RenoVerif.Cover
